@@ -184,7 +184,7 @@ def rule_dupdef(lib, prefixes):
     return out
 
 
-def rule_unitforms(lib, prefixes):
+def rule_unitforms(lib, prefixes, keywords=None):
     out = RuleOut("UNITFORMS", "every accepted (prefix, alias) form has exactly one reading and collides with no variable/function name")
     nm = Names(lib, prefixes)
     mods = sorted(lib.modules)
@@ -213,9 +213,43 @@ def rule_unitforms(lib, prefixes):
                 "form:%s:clash" % form, rel(lib, lib.modules[mn2]), d2.line,
                 "`%s` is both the %s `%s` of module %s and the unit form %s%s of module %s" % (form, d2.kind, d2.name, mn2, (r[3] + "-") if r[3] else "", r[1], r[0]),
             )
+    # an accepted form must be writable: it has to come out of the tokenizer as ONE identifier token, and must not be a keyword
+    from nbtlint.front import TokErr, tokenize
+
+    keywords = keywords or {}
+    n_kw = 0
+    unlexable = {}
+    for form, readings in sorted(forms.items()):
+        if form in keywords:
+            n_kw += 1
+            r = readings[0]
+            mn = r[0]
+            d = next(dd for (a, ap, me, bi, dd) in nm.units[mn] if dd.name == r[1])
+            out.violation(
+                "form:%s:keyword" % form, rel(lib, lib.modules[mn]), d.line,
+                "the accepted unit form `%s` (%s%s) is tokenized as the keyword %s and can never be read as that unit" % (form, (r[3] + "-") if r[3] else "", r[1], keywords[form]),
+            )
+            continue
+        try:
+            toks = [t for t in tokenize(form) if t.kind not in ("nl", "eof")]
+        except TokErr:
+            toks = []
+        if len(toks) != 1 or toks[0].kind != "ident":
+            r = readings[0]
+            unlexable.setdefault((r[0], r[1], r[2]), []).append(form)
+    for (mn, uname, alias), fs in sorted(unlexable.items()):
+        d = next(dd for (a, ap, me, bi, dd) in nm.units[mn] if dd.name == uname)
+        out.violation(
+            "lexable:%s:%s" % (uname, alias), rel(lib, lib.modules[mn]), d.line,
+            "alias `%s` of unit `%s` accepts prefixes, but the %d prefixed forms (%s…) are not single identifier tokens: `%s` is read as two tokens (a product), and the printed prefixed unit does not read back" % (alias, uname, len(fs), ", ".join(fs[:4]), fs[0]),
+            witness="2 milli%s -> milli%s  prints `2 %s`, which reads back as a different quantity" % (uname, uname, fs[0]) if uname == "arcsecond" else None,
+        )
     if out.count("violation") == 0:
         out.ok("all", "numbat/modules/units", 1, "%d accepted forms over %d unit names/aliases and %d prefixes: every form has one reading, none collides with a variable or function" % (n_forms, n_units, len(prefixes)))
-    out.analysed = {"forms": n_forms, "unit_aliases": n_units, "prefix_rows": len(prefixes)}
+    else:
+        out.ok("readings", "numbat/modules/units", 1, "%d accepted forms checked for readings, name clashes, keywords and lexability" % n_forms)
+    out.analysed = {"forms": n_forms, "unit_aliases": n_units, "prefix_rows": len(prefixes), "keywords": len(keywords)}
+    out.floor("keywords", len(keywords), 30)
     out.floor("forms", n_forms, 4000)
     out.floor("prefix_rows", len(prefixes), 34)
     out.floor("unit_aliases", n_units, 600)
